@@ -183,7 +183,9 @@ func (workerPoolSelf *DefaultWorkerPool) generateWorkerWithMaximum(maximum int) 
 	go func() {
 		// Recover & Recycle
 		defer func() {
+			isPanicked := false
 			if panic := recover(); panic != nil {
+				isPanicked = true
 				if handler := workerPoolSelf.panicHandler; handler != nil {
 					handler(panic)
 				}
@@ -194,7 +196,15 @@ func (workerPoolSelf *DefaultWorkerPool) generateWorkerWithMaximum(maximum int) 
 			if isBusy {
 				workerPoolSelf.workerBusy--
 			}
+			// This worker died in a panicking job, or several workers expired at once
+			// and fewer than the stand-by size are left
+			isSpawnNeeded := isPanicked || workerPoolSelf.workerCount < workerPoolSelf.workerSizeStandBy
 			workerPoolSelf.lock.Unlock()
+
+			// Wake the spawn loop so that the jobs already accepted are not stranded
+			if isSpawnNeeded && !workerPoolSelf.IsClosed() {
+				workerPoolSelf.spawnWorkerCh.Offer(1)
+			}
 		}()
 
 		// Do Jobs
